@@ -374,6 +374,32 @@ func ruleR37(p *Prog) []Ob {
 					bad = append(bad, p.at(rt)+": returns "+v.String())
 				}
 			}
+			// ... nor because a batch came back short (Consume never reads across a segment boundary)
+			for _, hb := range fn.Blocks {
+				if iff, ok := terminator(hb).(*ssa.If); ok {
+					if x, y, _, ok := relCond(iff.Cond); ok {
+						for _, pair := range [][2]ssa.Value{{x, y}, {y, x}} {
+							lc, ok := stripConv(pair[0]).(*ssa.Call)
+							if !ok || !isBuiltinCall(lc.Common(), "len") {
+								continue
+							}
+							ex, ok := canon(lc.Call.Args[0]).(*ssa.Extract)
+							if !ok {
+								continue
+							}
+							isBatch := false
+							for _, cc := range f.consumes {
+								if ex.Tuple == ssa.Value(cc) {
+									isBatch = true
+								}
+							}
+							if _, isK := constInt(pair[1]); isBatch && isK {
+								bad = append(bad, p.at(iff)+": a branch compares the length of a Consume batch with a constant: a short batch only means the end of a segment")
+							}
+						}
+					}
+				}
+			}
 			// the scan does not end because of how much it has selected already
 			for _, hb := range fn.Blocks {
 				if iff, ok := terminator(hb).(*ssa.If); ok {
